@@ -136,12 +136,12 @@ theorem findKPaths_ne {pick : Nat → List Path → Nat} {es : List Edge} {len k
 /-- the fuel supplied by the model always suffices: `ChewingEngine::convert` on a valid composition is
     `ok` or a `panic`, never `outOfFuel` -/
 theorem convertChewing_ne {pick : Nat → List Path → Nat} {d : Dict} {strat : Strategy} {c : Composition}
-    (hc : CompValid c) (hd : NoEmptyKey d) : convertChewing pick d strat c ≠ .outOfFuel := by
+    (hc : CompValid c) : convertChewing pick d strat c ≠ .outOfFuel := by
   unfold convertChewing
   split
   · simp
   · obtain ⟨es, hes⟩ := findIntervals_total (d := d) (strat := strat) hc
-    have hv := edgesValid_of_findIntervals hc hd hes
+    have hv := edgesValid_of_findIntervals hes
     unfold rawPaths
     rw [hes]
     simp only
